@@ -51,6 +51,11 @@ def run(F, rep, tier):
     # a trailing expression means `ret` of that expression - for the checker too
     import c02
     c02.trailing_value_is_the_return(F, rep, "IMPLICIT-RET")
+    # `a -> f(b)` means f(a, b) with `a` the expression in front of the arrow: a unary operator takes its operand at factor
+    # level (an operand parsed by prefix() alone would leave `-x -> f()` as f(-x))
+    import core
+    import c13
+    core.borrow(rep, lambda F_, r_: c13.run(F_, r_, "quick"), lambda o: o["rule"] == "UNARY", F)
     comments(F, rep)
     no_layout_flow(F, rep)
     paren_transparent(F, rep)
